@@ -21,7 +21,8 @@ PROP = 'C02'
 SCALARS = [2, 3, -1, 0.5, 0, 1.0]  # 0: a falsy operand is still an operand; 1.0: neutral in value, not in dtype
 BINARY = ['add', 'radd', 'sub', 'rsub', 'mul', 'rmul', 'truediv', 'rtruediv', 'floordiv',
           'rfloordiv', 'pow', 'rpow']
-COLS = [{'k': 'slice', 'v': [None, None, -1]}, {'k': 'list', 'v': [1]}, {'k': 'list', 'v': [2, 0]}]
+COLS = [{'k': 'slice', 'v': [None, None, -1]}, {'k': 'list', 'v': [1]}, {'k': 'list', 'v': [2, 0]},
+        {'k': 'list', 'v': [2, 0, 1]}]     # all channels in the caller's (not ascending) order
 
 
 def imports():
